@@ -13,6 +13,7 @@ pub mod c05;
 pub mod c06;
 pub mod c07;
 pub mod procgen;
+pub mod selftest;
 pub mod c08;
 pub mod c09;
 pub mod c11;
@@ -130,6 +131,7 @@ pub fn is_interference(o: &crate::ops::Outcome) -> bool {
 /// Dispatch for the universe side.
 pub fn run_batch(u: &mut Universe, b: &Batch, st: &mut Stats) {
     match b.check.as_str() {
+        "SELF" => selftest::run(u, b, st),
         "C01" => c01::run(u, b, st),
         "C10" => c10::run(u, b, st),
         "C02" => c02::run(u, b, st),
@@ -153,6 +155,7 @@ pub fn run_batch(u: &mut Universe, b: &Batch, st: &mut Stats) {
 /// Coordinator side: run one check, return the exit code.
 pub fn run_check(id: &str, tier: &str, seed: u64, jobs: usize) -> i32 {
     match id {
+        "selftest" => selftest::check(if tier == "thorough" { 400 } else { 60 }),
         "C01" => {
             let res = crate::coord::run_batches(c01::plan(tier, seed), jobs);
             c01::finalise(tier, seed, res)
